@@ -25,8 +25,11 @@ def one(w, pid):
 def main():
     args = sys.argv[1:]
     j = 5
+    only = None
     if args and args[0] == "-j":
         j = int(args[1]); args = args[2:]
+    if args and args[0] == "--only":       # re-run only these checks (or 'quiet' = the named-but-quiet ones), merge into meta.json
+        only = args[1]; args = args[2:]
     for name in args:
         d = VERIF / "seeded" / name
         agent = json.loads((d / "agent_meta.json").read_text())
@@ -36,8 +39,15 @@ def main():
             if run(f"git -C {w} apply {d/'patch.diff'}").returncode != 0:
                 print(name, "patch does not apply"); continue
             demo = run(f"cd {w} && PYTHONPATH={w} timeout 900 /venv/bin/python {d/'demo.py'}").returncode
+            todo, old = claimed, {}
+            if only and (d / "meta.json").exists():
+                old = json.loads((d / "meta.json").read_text()).get("checks", {})
+                prev = json.loads((d / "meta.json").read_text())
+                todo = prev.get("named_but_quiet", []) if only == "quiet" else only.split(",")
+                if not todo:
+                    continue
             with ThreadPoolExecutor(j) as ex:
-                checks = dict(ex.map(lambda p: one(w, p), claimed))
+                checks = {**old, **dict(ex.map(lambda p: one(w, p), todo))}
             named = agent.get("properties") or []
             meta = {"breaks_property": named, "region": agent.get("files") or agent.get("file"), "summary": agent.get("summary"),
                     "needs": agent.get("needs"),
